@@ -1252,6 +1252,30 @@ func (m *Machine) strEq(a, b String) *Term {
 	return r
 }
 
+// strLess: a < b in lexicographic byte order.  Built from the back: at position i, a string
+// that has ended is smaller iff the other has not; otherwise the first differing byte decides.
+func (m *Machine) strLess(a, b String) *Term {
+	if a.lit != nil && b.lit != nil && a.off.isC && b.off.isC && a.len.isC && b.len.isC {
+		return Bool((*a.lit)[a.off.c:a.off.c+a.len.c] < (*b.lit)[b.off.c:b.off.c+b.len.c])
+	}
+	var bound int
+	if a.len.isC || (a.maxLen > 0 && !(b.len.isC) && (b.maxLen == 0 || a.maxLen <= b.maxLen)) {
+		bound = m.boundOf(a.len, a.maxLen)
+	} else {
+		bound = m.boundOf(b.len, b.maxLen)
+	}
+	r := Cmp("bvult", a.len, b.len) // the common prefix of `bound` bytes is equal and one string ends there
+	for i := bound - 1; i >= 0; i-- {
+		ii := BV(64, uint64(i))
+		inA := Cmp("bvult", ii, a.len)
+		inB := Cmp("bvult", ii, b.len)
+		ca := readHist(a.h, Bin("bvadd", a.off, ii))
+		cb := readHist(b.h, Bin("bvadd", b.off, ii))
+		r = Ite(Not(inA), inB, Ite(Not(inB), False, Ite(Cmp("bvult", ca, cb), True, Ite(Cmp("bvult", cb, ca), False, r))))
+	}
+	return r
+}
+
 func (m *Machine) mapFind(mo *MapObj, k Value) int {
 	for i, kk := range mo.keys {
 		c := m.valEq(kk, k)
@@ -1285,6 +1309,16 @@ func (m *Machine) binop(op token.Token, a, b Value, ty types.Type) Value {
 		sb := b.(String)
 		if op == token.ADD {
 			return m.concat(sa, sb)
+		}
+		switch op { // lexicographic byte order, as the language defines it
+		case token.LSS:
+			return m.strLess(sa, sb)
+		case token.GTR:
+			return m.strLess(sb, sa)
+		case token.LEQ:
+			return Not(m.strLess(sb, sa))
+		case token.GEQ:
+			return Not(m.strLess(sa, sb))
 		}
 		panic("string binop " + op.String())
 	}
